@@ -160,9 +160,11 @@ func ittIndex(p *Process, params []string, cRecords chan []string, marshaller fu
 
 		} else {
 			// unordered matching - for this we load the entire data set into memory - up until the maximum value
+			// (the table is grown as records arrive rather than allocated up front:
+			// the highest requested row number is user input and can be huge)
 			var (
 				i     int
-				lines = make([][]string, max+1)
+				lines [][]string
 			)
 			for {
 				recs, ok := <-cRecords
@@ -170,13 +172,17 @@ func ittIndex(p *Process, params []string, cRecords chan []string, marshaller fu
 					break
 				}
 				if i <= max {
-					lines[i] = recs
+					lines = append(lines, recs)
 				}
 				i++
 			}
 
 			for _, j := range matchInt {
-				_, err = p.Stdout.Writeln(marshaller(lines[j]))
+				var recs []string
+				if j < len(lines) {
+					recs = lines[j]
+				}
+				_, err = p.Stdout.Writeln(marshaller(recs))
 				if err != nil {
 					p.Stderr.Writeln([]byte(err.Error()))
 				}
